@@ -272,6 +272,16 @@ Theorem C05_copy_is_value : forall P eps n sid b lb a la s o fl s1,
 Proof. exact copy_is_value. Qed.
 Print Assumptions C05_copy_is_value.
 
+(* `b get a` on an existing variable b: b's slot, and only it, receives a's value (so the
+   history theorem above applies from the resulting state exactly as after `make`). *)
+Theorem C05_assign_var_is_value : forall P eps n sid b lb a la s o fl s1,
+  exec P eps (S n) (SSet sid b lb (EVar a la)) s = (o, Ok (fl, s1)) ->
+  exists va,
+    lookup_env la a (env s) = Some va /\ lookup_env lb b (env s1) = Some va /\ (forall l' n', find_pos l' n' (env s) <> find_pos lb b (env s) ->
+                   lookup_env l' n' (env s1) = lookup_env l' n' (env s)) /\ shape (env s1) = shape (env s) /\ fns s1 = fns s.
+Proof. exact assign_var_is_value. Qed.
+Print Assumptions C05_assign_var_is_value.
+
 (* Storing into an array literal, passing as an argument, returning: reading a variable
    yields its value and changes nothing; a user call binds each parameter to the argument
    *value* in a fresh slot of a new innermost scope (so the frame theorems above apply to
